@@ -116,4 +116,23 @@ theorem Glob_literal {p : Text} (hp : ∀ c ∈ p, c ≠ '*' ∧ c ≠ '?') (t :
     · rintro rfl
       exact Glob.lit a p p ha.1 ha.2 ((ih' p).2 rfl)
 
+theorem literalWordDecide_iff (p s : Text) : literalWordDecide p s = true ↔ LiteralWordMatch p s := by
+  unfold literalWordDecide LiteralWordMatch
+  by_cases hp : p = []
+  · subst hp; simp
+  · have hp' : p.isEmpty = false := by cases p <;> simp_all
+    simp only [hp', Bool.false_eq_true, if_false, hp, false_and, false_or,
+      List.any_eq_true, List.mem_range, Bool.and_eq_true, decide_eq_true_eq]
+    constructor
+    · rintro ⟨i, _, hi, j, hj, ⟨hij, hbj⟩, hg⟩
+      exact ⟨hp, i, j, hij, by omega, hg, hi, hbj⟩
+    · rintro ⟨_, i, j, hij, hj, hg, hi, hbj⟩
+      exact ⟨i, by omega, hi, j, by omega, ⟨hij, hbj⟩, hg⟩
+
+/-- For a text without `*` and `?`, occurring literally and matching as a glob are the same. -/
+theorem LiteralWordMatch_iff_WordMatch {p : Text} (hp : ∀ c ∈ p, c ≠ '*' ∧ c ≠ '?') (s : Text) :
+    LiteralWordMatch p s ↔ WordMatch p s := by
+  unfold LiteralWordMatch WordMatch
+  simp only [Glob_literal hp]
+
 end Ruma.Spec.Glob
